@@ -251,6 +251,9 @@ func analyzeText(text string) *shape {
 		}
 	}
 	for i, t := range sh.toks {
+		if t.depth == 0 && t.punct && t.s == "," && cur == "join-on" {
+			cur = "from" // "a JOIN b ON x, c": the comma ends the ON expression
+		}
 		if t.depth == 0 && t.word() {
 			switch strings.ToUpper(t.s) {
 			case "WITH":
@@ -301,12 +304,18 @@ func analyzeText(text string) *shape {
 					cur = "ddl"
 				}
 			case "FROM":
+				if i >= 2 && sh.toks[i-1].is("DISTINCT") && (sh.toks[i-2].is("IS") || sh.toks[i-2].is("NOT")) {
+					break // the operator IS [NOT] DISTINCT FROM
+				}
 				if !(sh.verb == "DELETE" && cur == "target") {
 					set("from")
 				}
 			case "JOIN", "USING":
 				set("from")
 			case "ON":
+				if ddl {
+					break // a constraint's ON CONFLICT / ON DELETE clause
+				}
 				if i+1 < len(sh.toks) && sh.toks[i+1].is("CONFLICT") {
 					inConflict, insSel = true, false
 					cur = "on-conflict"
@@ -1508,4 +1517,61 @@ func TestExplore(t *testing.T) {
 			fmt.Printf("\n   analyzer parsed=%v %s %s perr=%s fail=%v\n", tw.parsed, tw.kind, tw.usage, tw.perr, tw.fail)
 		}
 	}
+}
+
+// TestPositions cross-checks the tokenizer's clause labels against the
+// generator's own "subq@<position>" features on many statements, without the
+// server verdict (development aid; VERIF_C15_POSITIONS=1, -rapid.checks=N).
+func TestPositions(t *testing.T) {
+	if os.Getenv("VERIF_C15_POSITIONS") == "" {
+		t.Skip()
+	}
+	e, err := getEnv()
+	if err != nil {
+		t.Fatal(err)
+	}
+	mism := map[string]int{}
+	total := 0
+	rapid.Check(t, func(rt *rapid.T) {
+		var weighted []sqlgen.Kind
+		for _, kw := range lastKinds {
+			for i := 0; i < kw.w; i++ {
+				weighted = append(weighted, kw.k)
+			}
+		}
+		s, _ := genStmt(rt, weighted)
+		tr := e.truthOf(s.SQL, 0)
+		if tr.err != nil {
+			return
+		}
+		feats := map[string]bool{}
+		for _, f := range s.Feat {
+			feats[f] = true
+		}
+		for _, n := range tr.needs {
+			if n.Mode != "read" {
+				continue
+			}
+			total++
+			pos := strings.TrimSuffix(n.Pos, "(view)")
+			ok := true
+			switch pos {
+			case "from", "with", "insert-select", "ddl-select", "ddl":
+			case "on-conflict":
+				ok = feats["subq@on-conflict"] || feats["subq@set"]
+			case "?", "target", "start":
+				ok = false
+			default:
+				ok = feats["subq@"+pos]
+			}
+			if !ok {
+				k := fmt.Sprintf("%s pos=%s", tr.sh.kind, n.Pos)
+				mism[k]++
+				if mism[k] <= 3 {
+					fmt.Printf("MISMATCH %s table=%s feats=%v\n   %q\n", k, n.Table, s.Feat, s.SQL)
+				}
+			}
+		}
+	})
+	fmt.Printf("read needs=%d mismatches=%v\n", total, mism)
 }
